@@ -80,6 +80,10 @@ class Scen(CompScenario):
             mask = rng.getrandbits(self.n)
         stim["replace.i.mask"] = mask
         stim["clear.en"] = int(rng.random() < pc)
+        if stim["replace.en"] and stim["clear.en"]:
+            # the statement does not say what the mask is after replace and clear of one cycle: never both
+            # (each of them still coincides with alloc / free / peek)
+            stim["replace.en" if rng.random() < 0.5 else "clear.en"] = 0
         return stim
 
     # ---- oracle -----------------------------------------------------------------------------
@@ -124,13 +128,15 @@ class Scen(CompScenario):
                             f"({got})", port="alloc", way=i)
                 got[i] = ident
 
-        # free ways, peek, replace, clear are always callable
+        # free ways, peek, replace, clear: the statement gives no readiness -- a refusal is counted
+        self.premise(not (stim.get("replace.en", 0) and stim.get("clear.en", 0)),
+                     "replace and clear are not requested in one cycle")
         done_free = []
         for i in range(self.fw):
             p = f"free{i}"
             en, done = stim.get(f"{p}.en", 0), obs[f"{p}.done"]
-            if en:
-                self.expect(obs[f"{p}.runnable"] == 1, "ready-mismatch", f"free way {i} not callable", port="free", way=i)
+            if en and not obs[f"{p}.runnable"]:
+                self.hit("free_not_callable")
             self.expect(not done or en, "ran-when-not-callable", f"free way {i} done without request", port="free", way=i)
             if en and not done:
                 self.hit("blocked_though_ready")
@@ -138,14 +144,12 @@ class Scen(CompScenario):
                 done_free.append(stim.get(f"{p}.i.ident", 0))
         for p in ("peek", "replace", "clear"):
             en, done = stim.get(f"{p}.en", 0), obs[f"{p}.done"]
-            if en:
-                self.expect(obs[f"{p}.runnable"] == 1, "ready-mismatch", f"{p} not callable", port=p)
+            if en and not obs[f"{p}.runnable"]:
+                self.hit(f"{p}_not_callable")
             self.expect(not done or en, "ran-when-not-callable", f"{p} done without request", port=p)
         pk, rp, cl = obs["peek.done"], obs["replace.done"], obs["clear.done"]
         if stim.get("peek.en", 0) and not pk:
             self.hit("blocked_though_ready")
-        # clear is implemented by calling replace: the two callers exclude each other
-        self.expect(not (rp and cl), "conflicting-both-ran", "replace and clear both executed in one cycle", port="replace")
         if (stim.get("replace.en", 0) or stim.get("clear.en", 0)) and not (rp or cl):
             self.hit("blocked_though_ready")
         if pk:
@@ -186,8 +190,6 @@ class Scen(CompScenario):
                 self.hit("clear_with_alloc")
             if done_free:
                 self.hit("clear_with_free")
-        if stim.get("replace.en", 0) and stim.get("clear.en", 0):
-            self.hit("replace_clear_contend")
         if pk and (got or done_free or rp or cl):
             self.hit("peek_with_update")
 
@@ -217,17 +219,21 @@ class Prop(PropBase):
     }
     rule = ("one run = one (entries, alloc_ways, free_ways, init mask) configuration driven for 80-240 cycles by a seeded "
             "phase plan (random / fill / drain / ping-pong / gap (only higher ways request) / replace / flush / contend / "
-            "idle); distinct = distinct (configuration, free mask, executed call set); non-trivial = a state-changing "
+            "idle; replace and clear never in one cycle); distinct = distinct (configuration, free mask, executed call set); non-trivial = a state-changing "
             "call executed while at most alloc_ways or at least entries-1 identifiers are free, or a way was refused, "
             "or replace / clear ran")
     expected_cov = ["alloc_refused_none_free", "alloc_some_ways_refused", "alloc_all_ways_ran", "alloc_took_last_free",
                     "alloc_high_way_only", "alloc_and_free_same_cycle", "free_several_same_cycle", "ident_reused_after_free",
                     "alloc_after_replace", "alloc_from_partial_init", "replace_with_alloc", "replace_with_free",
-                    "clear_with_alloc", "clear_with_free", "replace_clear_contend", "peek_with_update"]
+                    "clear_with_alloc", "clear_with_free", "peek_with_update"]
     real = ["transactron.lib.allocators.PriorityEncoderAllocator",
             "transactron.utils.amaranth_ext.elaboratables.MultiPriorityEncoder", "transactron.lib.adapters.AdapterTrans",
             "TransactionManager + scheduler", "amaranth pysim"]
     stubs = ["cycle driver (stimulus)", "free-mask reference model"]
+    assumptions = ["'free' identifiers (way readiness, returned identifiers, peek) are judged on the free mask at the beginning "
+                   "of the cycle: an identifier freed in a cycle is not available to an alloc of the same cycle; of the calls "
+                   "executed in one cycle replace / clear set the mask last",
+                   "replace and clear are never requested in the same cycle (the statement does not say which one wins)"]
     search_space = ("PriorityEncoderAllocator configurations (entries, alloc_ways, free_ways, init mask) and "
                     "alloc/free/peek/replace/clear call histories that free only allocated identifiers")
 
